@@ -262,6 +262,22 @@ def _run_both(case):
     ny, nx = case["src"]["shape"]
     shape = (nt, ny, nx) if nt else (ny, nx)
     data = _mk_data(case["dtype"], shape)
+    nanb = int(case.get("nan_blocks") or 0)
+    if nanb and data.dtype.kind == "f":
+        # whole source chunks without a single valid pixel (cloud-masked scenes, sparse mosaics): mode 1 = the first
+        # chunk in every plane, 2 = every other chunk of the first plane only, 3 = everything but the last chunk
+        yc = _expand_chunks(case["src_chunks"][0], ny)
+        xc = _expand_chunks(case["src_chunks"][1], nx)
+        ye = np.concatenate([[0], np.cumsum(yc)])
+        xe = np.concatenate([[0], np.cumsum(xc)])
+        cells = [(i, j) for i in range(len(yc)) for j in range(len(xc))]
+        pick = cells[:1] if nanb == 1 else cells[::2] if nanb == 2 else cells[:-1]
+        for i, j in pick:
+            sl = (slice(int(ye[i]), int(ye[i + 1])), slice(int(xe[j]), int(xe[j + 1])))
+            if nt and nanb == 2:
+                data[(0, *sl)] = np.nan
+            else:
+                data[(..., *sl)] = np.nan
     kw_wrap = {}
     if nt:
         kw_wrap["time"] = [f"2020-01-{i + 1:02d}" for i in range(nt)]
@@ -602,6 +618,7 @@ def _common(draw, src_shape, dst_shape, resampling="nearest", big_ok=True):
     else:
         sched = ["random", _rank(f"{mix}/seed", 0) % 2**31]
     return {
+        "nan_blocks": _pick(mix, "nanb", [0, 0, 0, 1, 2, 3]) if code in ("f4", "f8") else 0,
         "dtype": code,
         "nt": nt,
         "tchunk": tchunk,
